@@ -21,6 +21,25 @@ CLAIMED = {
         "large meshes are sampled, not enumerated",
         "DESIGN.md 6/C02",
     ),
+    "C03": (
+        "TLA+ relations (Mesh.tla) + TLC-enumerated manifold tables replayed into Grid.from_topology, outputs judged by TLC",
+        "TLC enumerates every manifold face-node table of a small scope, proves on each that the transcribed node_face / "
+        "edge_face (two-slot loop) / face_face builders satisfy the declarative transposition relations, and dumps the tables; "
+        "each is built through the public constructor in several access orders, and node_face, edge_face, face_face, "
+        "hole_edge_indices and their dtype/fill flags are judged row by row by TLC (a neighbour credited to the wrong face "
+        "fails its own row). Random planar meshes with holes and isolated faces are judged the same way.",
+        "TLC evaluator and Json module; projection of integer tables; non-manifold tables are outside the quantifier and skipped",
+        "DESIGN.md 6/C03",
+    ),
+    "C20": (
+        "TLA+ state machine of grid pairs under single-entry edits (GridEq.tla); TLC checks the equality laws and dumps pairs with oracle; replayed on real grids",
+        "TLC explores every pair of grids reachable from a common base by up to two single-entry edits on one side (thorough: "
+        "plus one on the other), checks reflexivity, symmetry, 'equal iff identical' and 'any single edit breaks equality' on the "
+        "specification, and emits each pair with the expected answer; each pair is realised as two real Grid objects and ==, != "
+        "are evaluated in both argument orders, with copies, with an independently built identical grid and with non-Grid operands.",
+        "abstract coordinate values are realised as multiples of 10 degrees; 'other format' is realised through source_grid_spec",
+        "DESIGN.md 6/C20",
+    ),
 }
 
 NOT_YET = "check not built yet in this session (work in progress; see DESIGN.md section 6)"
